@@ -94,6 +94,53 @@ def run(ctx):
         ctx.count("synthetic_biased" if c["biased"] else "synthetic_unbiased")
         ctx.case(("syn", c["d"], tuple(map(tuple, c["rows"])), tuple(c["members"]), c["biased"]), nontrivial=len(c["members"]) >= 3)
 
+    # ---------------- (a2) two consecutive rounds whose membership differs but whose MEAN is bit-identical
+    # (symmetric integer data): the covariance must still be recomputed for the new members
+    if ctx.replay is None:
+        from fast_ticc import data_preparation as dp
+        for rep in range(3 if ctx.quick() else 20):
+            r = pyrandom.Random(ctx.seed * 31 + rep)
+            reps = r.randint(2, 4)
+            quad = [(0.0, 0.0), (2.0, 2.0), (0.0, 2.0), (2.0, 0.0)]
+            common_rows = [(1.0, 0.0), (1.0, 2.0)] * reps
+            rows_a = [quad[0], quad[1]] * reps         # mean (1,1), positive correlation
+            rows_b = [quad[2], quad[3]] * reps         # mean (1,1), negative correlation
+            other = [(10.0 + r.randint(0, 3), 7.0 + r.randint(0, 3)) for _ in range(6 * reps)]
+            data = np.array(rows_a + rows_b + common_rows + other)
+            na, nb, nc = len(rows_a), len(rows_b), len(common_rows)
+            L1 = [0] * na + [1] * nb + [0] * nc + [1] * len(other)        # cluster 0 = A + common
+            L2 = [1] * na + [0] * nb + [0] * nc + [1] * len(other)        # cluster 0 = B + common (same mean)
+            script = {"j": 0}
+            o_init, o_pred = cla.build_initial_clusters, cla.predict_cluster_labels
+
+            def pred(model, test_data, _o=o_pred):
+                out = _o(model, test_data)
+                out.point_labels = list(L2 if script["j"] % 2 == 0 else L1)
+                script["j"] += 1
+                return out
+            with tu.patched(cla, "build_initial_clusters", lambda K, d: list(L1)), tu.patched(cla, "predict_cluster_labels", pred), \
+                    warnings.catch_warnings():
+                warnings.simplefilter("ignore")
+                with tu.Trace(capture_kernel=False) as tr2:
+                    try:
+                        tu.run_single(data, window_size=1, num_clusters=2, label_switching_cost=1.0, min_cluster_size=2,
+                                      iteration_limit=3, biased_covariance=(rep % 2 == 1))
+                    except Exception:
+                        pass
+            for e in tr2.events:
+                if e["phase"] != "stats" or e["error"] is not None:
+                    continue
+                snap = e["out_snap"]
+                for k, cs in enumerate(snap["clusters"]):
+                    members = [i for i, x in enumerate(snap["labels"]) if x == k]
+                    imean, icov = indep_stats(data[members], rep % 2 == 1)
+                    if not (close_arr(cs["mean"], imean) and close_arr(np.atleast_2d(cs["emp"]), icov)):
+                        ctx.violation("impl-violation",
+                                      f"cluster {k}: covariance is not that of its current windows (membership changed, mean unchanged)",
+                                      {"equal_mean_scenario": rep}, {"site": "stats-values", "scenario": "equal-mean"})
+            ctx.count("equal_mean_scenarios")
+            ctx.case(("equal-mean", rep), nontrivial=True)
+
     # ---------------- (b) traced runs
     for cfg in cfgs:
         series = tu.config_data(cfg)
